@@ -367,7 +367,9 @@ def conversions(prog, rep):
     for im in facts.impls:
         if not im['trait_def'].endswith('convert::From') or not im['def'].startswith(LO + '::'):
             continue
-        src = pxm.PX.from_arg(im['trait']).split('::')[-1]
+        src_full = pxm.PX.from_arg(im['trait'])
+        by_ref = src_full.lstrip().startswith('&')
+        src = src_full.split('::')[-1]
         dst = im['self_ty'].split('::')[-1]
         if {src, dst} != {'Locale', 'LanguageIdentifier'}:
             continue
@@ -383,13 +385,16 @@ def conversions(prog, rep):
                 r = segs[0].ret
                 detail = 'returns %s' % e.short(r, 200)
                 if dst == 'Locale':
-                    ok = r[0] == 'adt' and r[2] == 'Locale' and len(r[3]) == 2 and r[3][0] == ('param', 1) and default_struct(r[3][1]) and r[3][1][0] != 'lv'
+                    # From<&LanguageIdentifier>: the id is a clone of the referent (`*arg`), otherwise the argument itself
+                    idv = r[3][0] if (r[0] == 'adt' and len(r[3]) == 2) else None
+                    same = idv == ('param', 1) or (by_ref and idv is not None and terms.access_path(idv) == (1, ()) )
+                    ok = r[0] == 'adt' and r[2] == 'Locale' and len(r[3]) == 2 and same and default_struct(r[3][1]) and r[3][1][0] != 'lv'
                     idx = [i for i, f in enumerate(terms.struct_fields(facts, 'unic_locale_impl::Locale') or []) if f['ty'].endswith('LanguageIdentifier')]
                     ok = ok and idx == [0]
                 else:
                     ap = terms.access_path(r)
                     ok = ap is not None and ap[0] == 1 and len(ap[1]) == 1 and (terms.type_at(facts, 'unic_locale_impl::Locale', ap[1]) or '').endswith('LanguageIdentifier')
-            rep.ob('conv:%s->%s' % (src, dst), 'PAIR-CONV', it, im['span'],
+            rep.ob('conv:%s%s->%s' % ('&' if by_ref else '', src, dst), 'PAIR-CONV', it, im['span'],
                    ('From<LanguageIdentifier> for Locale = {id: argument, extensions: default}' if dst == 'Locale' else 'From<Locale> for LanguageIdentifier returns the id field (drops exactly the extensions)'),
                    ok, detail=detail)
     rep.floor('Locale <-> LanguageIdentifier conversions', n, 2)
